@@ -2,6 +2,7 @@
 from __future__ import annotations
 
 import ast
+import os
 import re
 from collections import Counter
 from typing import Dict, List, Optional, Set, Tuple
@@ -287,6 +288,13 @@ def run(p: Program, rep: Report, tier: str) -> None:
         if len(calls_w) == len(unexplained_w) and len(calls_a) == len(unexplained_a) and calls_w and calls_a \
                 and {i[1] for i in calls_w} == {i[1] for i in calls_a} and (any(_spread_call(i) for i in calls_w) or any(_spread_call(i) for i in calls_a)):
             rep.undecide("R4.2", f"{mod}.{f.qualname}: both sides call {sorted({i[1] for i in calls_w})} but one passes a **mapping built at run time: argument agreement not decidable on the fingerprint")
+            continue
+        if not same_members and os.environ.get("BAIZE_C04_STRICT") != "1":
+            # the two sides are not built from the same private parts (a helper / holder class / iterator object exists on one side
+            # only): their effect fingerprints are not comparable item by item - a structural difference, reported as not decided
+            extra_w = sorted(set(rel(f, m) for m in mf) - set(rel(g, m) for m in mg))
+            extra_a = sorted(set(rel(g, m) for m in mg) - set(rel(f, m) for m in mf))
+            rep.undecide("R4.2", f"{mod}.{f.qualname}: the two interfaces are structured differently (private members only on WSGI: {extra_w[:3]}, only on ASGI: {extra_a[:3]}): effect agreement not decided")
             continue
         rep.violation("R4.2", construct(f"baize.*.{mod}:{f.qualname}", text="wsgi-only " + "; ".join(sorted(items_text(i) for i in unexplained_w))[:400] + " || asgi-only " + "; ".join(sorted(items_text(i) for i in unexplained_a))[:400]),
                       f"{f.loc} vs {g.loc}",
